@@ -53,6 +53,9 @@ add('C03', 'terminal-state hook of the recorder: places and bests recomputed fro
 add('C08', 'replay monitors at reachable states: from_actions on the full snapshot, card export/import and per-height re-orderings compared on state/heights/cards/bests/places',
     'States from the full-alphabet BFS (so logs coexist with refused calls), random walks and random complete competitions; every k-th accepted call triggers three independent re-executions of the real code, with all interleavings when there are at most 60 and 11 systematic/seeded ones otherwise.',
     'ranked_jumpers order and internal flags deliberately not compared for the card and re-ordering clauses.', 'C08')
+add('C16', 'delay injection at athlib source lines: sys.settrace token-passing controller forcing chosen pre-emptions between real threads, sequential reference as oracle; free-running stress complement',
+    'For ~46 scenarios (pairs and triples of calls on every piece of shared module state, first-call and warmed-up, caches empty and at their limit) every single pre-emption of each thread before each of its athlib line events is executed with the other thread run to completion inside the window, plus seeded two- and three-thread pre-emption schedules and stress rounds; each thread outcome compared with the single-threaded answer. Locks in athlib are replaced by cooperative proxies so that schedules pre-empting inside a critical section hand the token back instead of deadlocking.',
+    'Granularity is the source line inside athlib; bound of two forced pre-emptions per pair; pre-emptions inside json/jsonschema/stdlib only by the stress mode.', 'C16')
 _all = ['C%02d' % i for i in range(1, 20)]
 for p in _all:
     if p not in CHECKS:
